@@ -276,8 +276,16 @@ class Target:
         # would abort on its --replace-call-with-contract: replace only callees that are called (recorded in the evidence)
         # (a call may also sit in the prelude: stubs / contract-level lemma wrappers that call a contracted function; the
         # prototype that carries the contract is itself followed by '(' so count occurrences beyond the declaration)
+        # (the prelude may be a generated top file that only #includes the spec's headers: those are searched as well)
+        ptext_all = ptext
+        for inc in re.findall(r'(?m)^#include\s+"([^"]+)"', ptext):
+            for cand in (inc, os.path.join(VERIF, inc), os.path.join(os.path.dirname(os.path.join(VERIF, self.prelude)), inc)):
+                if os.path.isabs(cand) and os.path.exists(cand):
+                    ptext_all += '\n' + open(cand).read()
+                    break
+
         def called_in_prelude(g):
-            return len(re.findall(r'\b' + re.escape(g) + r'\s*\(', ptext)) >= 2
+            return len(re.findall(r'\b' + re.escape(g) + r'\s*\(', ptext_all)) >= 2
         self.replace_used = [g for g in self.replace if any(re.search(r'\b' + re.escape(g) + r'\s*\(', t) for t in texts + [harness])
                              or any(g == f.cname for f in self.fns) or called_in_prelude(g)]
         info['contracts_not_called'] = [g for g in self.replace if g not in self.replace_used]
